@@ -70,7 +70,7 @@ type scheduler struct {
 }
 
 func newScheduler(in *interpreter, preempts int) *scheduler {
-	main := &gthread{id: 0, wake: make(chan bool), sentIdx: -1}
+	main := &gthread{id: 0, wake: make(chan bool, 1), sentIdx: -1}
 	return &scheduler{in: in, threads: []*gthread{main}, cur: main, preempts: preempts,
 		chans: map[chan value]*chanState{}, wgs: map[*value]*int{}, onces: map[*value]int{}, maxSteps: 20000}
 }
@@ -182,7 +182,7 @@ func (s *scheduler) describeHang() string {
 
 func (s *scheduler) spawn(fn value, args []value) {
 	in := s.in
-	t := &gthread{id: len(s.threads), wake: make(chan bool), sentIdx: -1}
+	t := &gthread{id: len(s.threads), wake: make(chan bool, 1), sentIdx: -1}
 	s.threads = append(s.threads, t)
 	go func() {
 		if ok := <-t.wake; !ok {
@@ -262,10 +262,8 @@ func (s *scheduler) exitThread(t *gthread) {
 // killAll ends every parked goroutine (at the end of a path).
 func (s *scheduler) killAll() {
 	for _, t := range s.threads[1:] {
-		if !t.done && t.parked {
-			t.wake <- false
-		} else if !t.done {
-			// never started
+		if !t.done {
+			// parked, or not started yet: the buffered token is picked up either way
 			select {
 			case t.wake <- false:
 			default:
@@ -588,7 +586,7 @@ func init() {
 // spawnWithExit starts fn() and runs atExit when it returns normally.
 func (s *scheduler) spawnWithExit(fn value, atExit func()) {
 	in := s.in
-	t := &gthread{id: len(s.threads), wake: make(chan bool), sentIdx: -1}
+	t := &gthread{id: len(s.threads), wake: make(chan bool, 1), sentIdx: -1}
 	s.threads = append(s.threads, t)
 	go func() {
 		if ok := <-t.wake; !ok {
